@@ -46,7 +46,9 @@
 EXTENDS Integers, Sequences, FiniteSets, TLC, Json
 
 CONSTANTS
-  Plans,           \* set of plans; plan = sequence of [n |-> chunks, ab |-> BOOLEAN, cut |-> chunks actually sent]
+  Plans,           \* set of plans; plan = sequence of [n |-> chunks, ab |-> BOOLEAN, cut |-> chunks actually sent,
+                   \*   sz |-> size of the message body relative to the negotiated MaxMessageSize:
+                   \*          "small", "near" (90 %), "limit" (exactly), "over" (limit + 1)]
   Interleave,      \* sender may interleave chunks of different messages
   SeqParams,       \* set of [first |-> s, wrapAfter |-> w, wrapTo |-> t]; wrapAfter = NoWrap: no wrap
   Modes,           \* security modes explored: subset of {"None", "Sign", "SignAndEncrypt"}
@@ -198,17 +200,19 @@ Outcome(r, c, d, F) ==
                  (IF F.perreq THEN Len(r.partial[c.req]) + 1 > MaxChunks
                               ELSE TotalBuffered(r) + 1 > MaxChunks)
                 THEN "toomany" ELSE "buffer"
-         [] c.kind = "F" -> "deliver"
+         \* Receive merges the chunks and compares the length of the BODY with MaxMessageSize: a message
+         \* within the limit is delivered however many chunks carried it, one above it is refused
+         [] c.kind = "F" -> IF c.over /\ Len(r.partial[c.req]) + 1 = c.part THEN "toobig" ELSE "deliver"
 
 Kept(r, c, F) == Merge(Append(r.partial[c.req], c), F)
 IsWhole(kept, c) == Len(kept) = c.part /\ \A i \in 1..Len(kept) : kept[i].msg = c.msg /\ kept[i].part = i
 
 RecvF(r, c, d, via, F) ==
   LET o   == Outcome(r, c, d, F)
-      acc == o \in {"abort", "buffer", "toomany", "deliver"}
+      acc == o \in {"abort", "buffer", "toomany", "deliver", "toobig"}
   IN [lastSeq   |-> IF acc /\ SeqFollows(r.lastSeq, c.seq) THEN c.seq ELSE r.lastSeq,
       partial   |-> CASE o = "buffer" -> [r.partial EXCEPT ![c.req] = Append(@, c)]
-                      [] o \in {"toomany", "abort", "deliver"} -> [r.partial EXCEPT ![c.req] = <<>>]
+                      [] o \in {"toomany", "abort", "deliver", "toobig"} -> [r.partial EXCEPT ![c.req] = <<>>]
                       [] OTHER -> r.partial,
       accepted  |-> IF acc THEN Append(r.accepted, [id |-> c.id, seq |-> c.seq, dmg |-> d, via |-> via]) ELSE r.accepted,
       delivered |-> IF o = "deliver" THEN Append(r.delivered, Ids(Kept(r, c, F))) ELSE r.delivered,
@@ -245,7 +249,7 @@ CanSend(m) ==
   /\ (~Interleave => \A m2 \in Msgs \ {m} : ~InProgress(m2))
 
 Chunk(m) == [id |-> Len(wire) + 1, seq |-> nextSeq, req |-> ReqOf(m), msg |-> m,
-             part |-> sentN[m] + 1, kind |-> KindOf(m, sentN[m] + 1)]
+             part |-> sentN[m] + 1, kind |-> KindOf(m, sentN[m] + 1), over |-> (plan[m].sz = "over")]
 
 Advance(m) ==
   /\ sentN' = [sentN EXCEPT ![m] = @ + 1]
@@ -314,7 +318,7 @@ Replay(j) == /\ Alive /\ "replay" \in Moves /\ budget > 0
 \* a frame of the adversary's own making (an OPN frame naming the policy None, a frame of an unknown
 \* type ...) between two chunks of the stream: refused, and it must not change what happens to
 \* later chunks -- in particular a forged chunk is still refused afterwards
-Pseudo(g) == [id |-> 0, seq |-> 0, req |-> 0, msg |-> 0, part |-> 0, kind |-> "X"]
+Pseudo(g) == [id |-> 0, seq |-> 0, req |-> 0, msg |-> 0, part |-> 0, kind |-> "X", over |-> FALSE]
 Inject(g) == /\ Alive /\ "inject" \in Moves /\ budget > 0 /\ g \in Injects
              /\ \E m \in Msgs : CanSend(m)             \* not after the last chunk
              /\ Recv(Pseudo(g), g, "inject")
@@ -359,7 +363,7 @@ InvBounded == MaxChunks > 0 => TotalBuffered(rc) <= MaxChunks
 
 \* C12: without an adversary every completed, non-aborted message is delivered whole, in completion order
 ChunksOf(m) == SelectSeq(wire, LAMBDA c : c.msg = m)
-CompletedOrder == LET fin == SelectSeq(wire, LAMBDA c : c.kind = "F") IN [i \in 1..Len(fin) |-> fin[i].msg]
+CompletedOrder == LET fin == SelectSeq(wire, LAMBDA c : c.kind = "F" /\ ~c.over) IN [i \in 1..Len(fin) |-> fin[i].msg]
 InvReassembly ==
   (budget = Budget /\ held = <<>>) =>
      /\ Len(rc.delivered) = Len(CompletedOrder)
